@@ -2,13 +2,14 @@
 
 package view
 
-// Exporters for the C11 harness: the viewer's two approval decisions
-// (summary text, Active flags) on a given configuration and counter file.
-// They add no behaviour.
+// Exporters for the C11 harness: what the viewer's index page is built from,
+// through the functions handleIndex itself calls: files(dir, cfg) for the
+// count files (newCounterFile: summary, ActiveMeta, Active flags) and
+// reports(dir, cfg) for the weekly reports (newTelemetryReport: per-program
+// summary).  They add no behaviour.
 
 import (
 	"golang.org/x/telemetry/internal/config"
-	tcounter "golang.org/x/telemetry/internal/counter"
 )
 
 type VerifRow struct {
@@ -18,21 +19,55 @@ type VerifRow struct {
 }
 
 type VerifFileView struct {
+	ID         string
 	Summary    string
 	ActiveMeta map[string]bool
 	Counts     []VerifRow
 	Stacks     []VerifRow
 }
 
-func VerifView(cfg *config.Config, meta map[string]string, count map[string]uint64) VerifFileView {
-	cf := newCounterFile("verif", &tcounter.File{Meta: meta, Count: count}, cfg)
-	// cf.Summary is summary(cfg, meta, count); the order of the listed names follows map iteration
-	v := VerifFileView{Summary: string(cf.Summary), ActiveMeta: cf.ActiveMeta}
-	for _, c := range cf.Counts {
-		v.Counts = append(v.Counts, VerifRow{Name: c.Name, Active: c.Active})
+type VerifProgramView struct {
+	Program, Version, GoVersion, GOOS, GOARCH string
+	Summary                                   string
+}
+
+type VerifReportView struct {
+	Week     string
+	Programs []VerifProgramView
+}
+
+func VerifFiles(dir string, cfg *config.Config) ([]VerifFileView, error) {
+	cfs, err := files(dir, cfg)
+	if err != nil {
+		return nil, err
 	}
-	for _, s := range cf.Stacks {
-		v.Stacks = append(v.Stacks, VerifRow{Name: s.Name, Trace: s.Trace, Active: s.Active})
+	var res []VerifFileView
+	for _, cf := range cfs {
+		v := VerifFileView{ID: cf.ID, Summary: string(cf.Summary), ActiveMeta: cf.ActiveMeta}
+		for _, c := range cf.Counts {
+			v.Counts = append(v.Counts, VerifRow{Name: c.Name, Active: c.Active})
+		}
+		for _, s := range cf.Stacks {
+			v.Stacks = append(v.Stacks, VerifRow{Name: s.Name, Trace: s.Trace, Active: s.Active})
+		}
+		res = append(res, v)
 	}
-	return v
+	return res, nil
+}
+
+func VerifReports(dir string, cfg *config.Config) ([]VerifReportView, error) {
+	rs, err := reports(dir, cfg)
+	if err != nil {
+		return nil, err
+	}
+	var res []VerifReportView
+	for _, r := range rs {
+		v := VerifReportView{Week: r.Week}
+		for _, p := range r.Programs {
+			v.Programs = append(v.Programs, VerifProgramView{Program: p.Program, Version: p.Version, GoVersion: p.GoVersion,
+				GOOS: p.GOOS, GOARCH: p.GOARCH, Summary: string(p.Summary)})
+		}
+		res = append(res, v)
+	}
+	return res, nil
 }
